@@ -1753,6 +1753,12 @@ class Interp:
                 if x.auto != b.auto:
                     return None
                 stay.append(frozenset((k, v) for k, v in x.facts.items() if st.facts.get(k) != v))
+            tn = {n.id for n in ast.walk(s.target) if isinstance(n, ast.Name)}
+            for x in r.brk + r.nxt + r.cont:
+                # (a body that changes a variable of the function - `found.update(...)` before the break - is not
+                # a mere search)
+                if any(v != b.vars.get(k) for k, v in x.vars.items() if k[0] == fr.fid and k[1] not in tn) and r.brk:
+                    return None
             for x in r.brk:
                 if x.auto != b.auto:
                     return None
